@@ -192,7 +192,10 @@ def cleaned_args(prog):
 def roundtrip(prog, tmp):
     from mpilot.program import Program
 
+    from ..history import maybe_earlier_v2_load
+
     text = prog.to_string()
+    maybe_earlier_v2_load(text)
     return text, Program.from_source(text, libraries=LIBS, working_dir=tmp)
 
 
@@ -317,8 +320,15 @@ def check_model(model, rec):
     tmp = tempfile.mkdtemp(prefix="vcheck-c15-")
     try:
         M.write_table(model, os.path.join(tmp, "input.csv"))
-        text = M.source(model)
-        p1 = Program.from_source(text, libraries=EEMS_CSV_LIBRARIES, working_dir=tmp)
+        from ..history import maybe_earlier_v2_load
+
+        extra = ['WOut = EEMSWrite(OutFileName = "written.csv", OutFieldNames = [%s])' % model["nodes"][0]["name"]]
+        text = M.source(model, extra_lines=extra)
+        maybe_earlier_v2_load(text)
+        try:
+            p1 = Program.from_source(text, libraries=EEMS_CSV_LIBRARIES, working_dir=tmp)
+        except Exception as exc:
+            return [Failure("model_source_rejected:%s" % type(exc).__name__, "%r\n%s" % (exc, text))]
         try:
             s1 = p1.to_string()
             p2 = Program.from_source(s1, libraries=EEMS_CSV_LIBRARIES, working_dir=tmp)
@@ -342,7 +352,11 @@ def check_model(model, rec):
             return [Failure("model_reloaded_fails:%s" % type(exc).__name__, "%r\n%s" % (exc, s1))]
         for name in p1.commands:
             a, b = p1.commands[name].result, p2.commands[name].result
-            if not (isinstance(a, numpy.ndarray) and isinstance(b, numpy.ndarray) and U.result_equal(a, b, 0.0)):
+            if not isinstance(a, numpy.ndarray):
+                if isinstance(b, numpy.ndarray) or a != b:
+                    return [Failure("model_results_differ|%s" % type(p1.commands[name]).__name__, "%s\n%s" % (name, s1))]
+                continue
+            if not (isinstance(b, numpy.ndarray) and U.result_equal(a, b, 0.0)):
                 return [Failure("model_results_differ|%s" % type(p1.commands[name]).__name__, "%s\n%s" % (name, s1))]
         if any(n.get("meta") for n in model["nodes"]) or any(
                 isinstance(v, float) for n in model["nodes"] for v in n.get("params", {}).values()):
